@@ -35,6 +35,10 @@
 ; where the MID-specific data ends
 (define-fun meta.dataEnd ((B Bytes) (p Idx) (e Idx)) Idx
   (ite (= (meta.mid B p e) #x00000000) (draw.p4 B (meta.p2 B p e) e) (meta.palEnd B p e)))
+; "declared length disagrees with content": what remains after the MID-specific data must be what remained after the length
+; field minus the declared length
+(define-fun meta.consistent ((B Bytes) (p Idx) (e Idx)) Bool
+  (= (bvsub e (meta.dataEnd B p e)) (bvsub (bvsub e (meta.p1 B p e)) (meta.len B p))))
 ; error classes, in the order the checks apply: 0 none, 1 invalid chunk length, 2 invalid identifier, 3 unsupported identifier,
 ; 4 invalid view box, 5 invalid suggested palette, 6 inconsistent chunk length ("declared length disagrees with content")
 (define-fun meta.err ((B Bytes) (p Idx) (e Idx)) Int
@@ -43,6 +47,6 @@
   (ite (bvuge (meta.mid B p e) #x00000002) 3
   (ite (= (meta.mid B p e) #x00000000)
        (ite (not (and (meta.vbOK B p e) (meta.vbValid (meta.vbMinX B p e) (meta.vbMinY B p e) (meta.vbMaxX B p e) (meta.vbMaxY B p e)))) 4
-       (ite (= (meta.dataEnd B p e) (bvadd (meta.p1 B p e) (meta.len B p))) 0 6))
+       (ite (meta.consistent B p e) 0 6))
        (ite (not (meta.palOK B p e)) 5
-       (ite (= (meta.dataEnd B p e) (bvadd (meta.p1 B p e) (meta.len B p))) 0 6)))))))
+       (ite (meta.consistent B p e) 0 6)))))))
